@@ -271,6 +271,32 @@ def nontrivial(case):
     return bool(rec.get('cuts')) or any(any(o) for o in rec.get('opts', [])) or bool(rec.get('enc'))
 
 
+def check_pair(case):
+    """Two files open at the same time, their sequential reads advanced in turn: each reader must give its own file's records."""
+    import itertools as it
+    from TotalDepth.RP66V1.core import File
+    out = []
+    sides = []
+    for c in (case['a'], case['b']):
+        data, _lay, recs, _lab = materialise(c)
+        sides.append((data, [(r['eflr'], r['type'], r['payload'], r['encrypted']) for r in recs]))
+    try:
+        with File.FileRead(io.BytesIO(sides[0][0])) as fa, File.FileRead(io.BytesIO(sides[1][0])) as fb:
+            got = ([], [])
+            for x, y in it.zip_longest(fa.iter_logical_records(), fb.iter_logical_records()):
+                for k, fld in enumerate((x, y)):
+                    if fld is not None:
+                        got[k].append((fld.lr_is_eflr, fld.lr_type, fld.logical_data.bytes, fld.lr_is_encrypted))
+    except Exception as err:  # noqa
+        return [({'kind': 'interleaved_readers_raise', 'exc': type(err).__name__},
+                 'two readers advanced in turn: %s: %s' % (type(err).__name__, err))], ('raise', type(err).__name__)
+    for k in (0, 1):
+        if got[k] != sides[k][1]:
+            out.append(({'kind': 'interleaved_readers_differ'}, 'two readers advanced in turn: reader %d gives %d records that differ from the %d '
+                        'written to its file' % (k, len(got[k]), len(sides[k][1]))))
+    return out, h64(repr(got))
+
+
 def run_shard(shard, tier):
     res = Result()
     if shard['gen'] == 'A':
@@ -281,15 +307,26 @@ def run_shard(shard, tier):
         gen = gen_giant(tier)
     else:
         gen = gen_labels(tier, shard['part'])
+    prev = None
     for i, case in enumerate(gen):
         bad, outcome = check_case(case)
         res.case(h64(repr(case)), nontrivial=nontrivial(case), outcome=outcome, sample=case if i == 777 else None)
         res.count('shape_' + case['shape'])
         for sig, msg in bad:
             res.violate(sig, case, msg)
+        if prev is not None and i % 4 == 1 and case['shape'] != 'L' and not bad:
+            pair = {'shape': 'P', 'a': prev, 'b': case}
+            pbad, _o = check_pair(pair)
+            res.count('interleaved_pairs')
+            for sig, msg in pbad:
+                res.violate(sig, pair, msg)
+        prev = case if case['shape'] != 'L' else prev
     return res
 
 
 def replay(case):
+    if case.get('shape') == 'P':
+        bad, _ = check_pair(case)
+        return [{'sig': s, 'case': case, 'msg': m} for s, m in bad]
     bad, _ = check_case(case)
     return [{'sig': s, 'case': case, 'msg': m} for s, m in bad]
